@@ -14,6 +14,18 @@ def gen_values(rng, n, vtype):
         return rng.sample(pool, n)
     if vtype == "str":
         return rng.sample(STR_POOL, n)
+    if vtype == "bool":
+        return rng.sample([True, False], min(n, 2))
+    if vtype == "npint":
+        import numpy as np
+        return [np.int64(v) for v in rng.sample(range(-6, 40), n)]
+    if vtype == "npfloat":
+        import numpy as np
+        return [np.float64(v) for v in gen_values(rng, n, "float")]
+    if vtype == "tuple":
+        return [tuple(t) for t in rng.sample([(1, 2), (2, 1), (0,), (), ("a", 1), (3, 4, 5)], n)]
+    if vtype == "strx":
+        return rng.sample(STR_POOL + ["", " ", "None", "nan"], n)
     if vtype == "mixed":
         vals = gen_values(rng, n, "int")
         out = []
@@ -23,22 +35,26 @@ def gen_values(rng, n, vtype):
     raise ValueError(vtype)
 
 
-def gen_vtype(rng, allow_mixed=False):
+def gen_vtype(rng, allow_mixed=False, exotic=False):
     r = rng.random()
+    if exotic and r < 0.25:
+        # legitimate but unusual argument values: booleans, numpy scalars, tuples, empty / odd strings
+        return rng.choice(["bool", "npint", "npfloat", "tuple", "strx"])
     if allow_mixed and r < 0.06:
         return "mixed"
     return "int" if r < 0.45 else "float" if r < 0.75 else "str"
 
 
 def gen_combos(rng, nargs=(1, 5), nvals=(1, 4), max_settings=256, names=None, allow_mixed=False,
-               sortable_only=False):
+               sortable_only=False, exotic=False):
     k = rng.randint(*nargs)
     names = list(names) if names else rng.sample(ARG_POOL, k)
     while True:
         combos = []
         for a in names[:k]:
-            vt = gen_vtype(rng, allow_mixed and not sortable_only)
-            combos.append([a, gen_values(rng, rng.randint(*nvals), vt)])
+            vt = gen_vtype(rng, allow_mixed and not sortable_only, exotic)
+            nv = rng.randint(*nvals)
+            combos.append([a, gen_values(rng, min(nv, 2) if vt == "bool" else nv, vt)])
         n = 1
         for _, v in combos:
             n *= len(v)
